@@ -10,3 +10,4 @@ open Servlin.C18
 #print axioms Servlin.C18W.C18_exactly_once
 #print axioms Servlin.C18W.C18_current_sink
 #print axioms Servlin.C18W.C18_thread_isolation
+#print axioms Servlin.C18W.C18_removed_logger_silent
